@@ -36,11 +36,11 @@ def run(plan):
     dev = s.dev
     res = Result()
     op_ranges = []          # (log_start, log_end, op, expected_token_for_handshakes)
-    offsets = [(0.0, 0.0)]  # (loop time, cumulative wall offset)
+    offsets = [(0, 0.0)]    # (device-log index at the jump, cumulative wall offset): order, not time, decides
     lifetimes = [(0.0, None)]
 
-    def wall(t):
-        i = bisect.bisect_right([x[0] for x in offsets], t) - 1
+    def wall(t, idx):
+        i = bisect.bisect_right([x[0] for x in offsets], idx) - 1
         return t + offsets[i][1]
 
     def lifetime_at(t):
@@ -73,6 +73,16 @@ def run(plan):
                     return
                 if i % 4096 == 0:
                     await asyncio.sleep(0)
+            # the authentication lifetime elapses on this long-lived connection: handshake again, then more data
+            offsets.append((len(dev.log), offsets[-1][1] + H12 + 61))
+            w.clock.jump(H12 + 61)
+            w.fire("clock_jump")
+            try:
+                await proto.authenticate(s.token, s.key)
+                proto.write(b"cd")
+                proto.write(b"ef")
+            except Exception as e:
+                res.fail(f"long session: re-handshake raised {type(e).__name__}", repr(e))
             return
         if long_n:
             o = await s.do({"op": "auth"})
@@ -86,6 +96,16 @@ def run(plan):
                 except Exception as e:
                     res.fail(f"long session: send raised {type(e).__name__}", f"after {i} data packets: {e!r}")
                     return
+            # the authentication lifetime elapses on this long-lived connection: the next exchanges re-handshake
+            offsets.append((len(dev.log), offsets[-1][1] + H12 + 61))
+            w.clock.jump(H12 + 61)
+            w.fire("clock_jump")
+            for _ in range(2):
+                try:
+                    await ac._lan.send(bytes.fromhex(frame), retries=1)
+                except Exception as e:
+                    res.fail(f"long session: send after expiry raised {type(e).__name__}", repr(e))
+                    return
             return
         for op in plan["ops"]:
             kind = op["op"]
@@ -95,7 +115,7 @@ def run(plan):
                 tok, _k = s.creds(op.get("cred", "good"))
                 expected_tok = bytes.fromhex(tok) if isinstance(tok, str) else tok
             if kind == "jump":
-                offsets.append((w.loop.time(), offsets[-1][1] + op["s"]))
+                offsets.append((len(dev.log), offsets[-1][1] + op["s"]))
             if kind == "lifetime":
                 lifetimes.append((w.loop.time(), op["s"]))
             if kind == "send":
@@ -142,8 +162,10 @@ def run(plan):
         wraps = set()
         for cid, evs in conns.items():
             connect_t = evs[0][1]["t"]
+            connect_idx = evs[0][0]
             lt = lifetime_at(connect_t - 1e-9)
             last_hs_reply_t = None
+            last_hs_idx = 0
             accepted = set()         # key indices the client may hold (latest accepted handshake; 2 on a tie)
             loose = False
             prev_counter = None
@@ -162,7 +184,8 @@ def run(plan):
                         # legitimately consumes: from here on any delivered genuine key is acceptable
                         loose = True
                         accepted.add(e["key_index"])
-                        last_hs_reply_t = e["t"] if last_hs_reply_t is None else last_hs_reply_t
+                        if last_hs_reply_t is None:
+                            last_hs_reply_t, last_hs_idx = e["t"], idx
                     elif not rng_ or rng_[0][4] == "good":
                         # delivered to the client before the operation was cancelled?
                         conn = w.net.conns[cid]
@@ -175,7 +198,7 @@ def run(plan):
                             w.probe("cancel_tied_with_handshake_reply")
                         else:
                             accepted = {e["key_index"]}
-                            last_hs_reply_t = e["t"]
+                            last_hs_reply_t, last_hs_idx = e["t"], idx
                 if k == "hs_req":
                     rng_ = [r for r in op_ranges if r[0] <= idx < r[1]]
                     exp = rng_[0][3] if rng_ else None
@@ -194,7 +217,7 @@ def run(plan):
                         res.fail("I2: data packet not encrypted under the key of the latest accepted handshake",
                                  f"key index {e['key_index']}, latest accepted {sorted(accepted)}")
                         break
-                    age = wall(e["t"]) - wall(last_hs_reply_t)
+                    age = wall(e["t"], idx) - wall(last_hs_reply_t, last_hs_idx)
                     if age > H12 + 30 and not loose:
                         res.fail("I4: data sent more than 12 h after the last handshake without re-authenticating",
                                  f"age {age:.0f} s")
@@ -214,7 +237,7 @@ def run(plan):
                         break
                     prev_counter = c
                     if lt is not None:
-                        cage = wall(e["t"]) - wall(connect_t)
+                        cage = wall(e["t"], idx) - wall(connect_t, connect_idx)
                         if cage > lt + 30:
                             res.fail("I4: packet on a connection older than max_connection_lifetime",
                                      f"age {cage:.0f} s > {lt} s")
